@@ -9,7 +9,9 @@ single-run payload (kind absent or "single"):
   det      "ccd" | "cmos" | "mkid" | "apd"   (default "ccd")
   mode     "exposure" | "observation" | "calibration"
   debug    bool (exposure only)
-  params   observation: [{group, model, path: [key, inner...], values:[int...]}]; omode "sequential" | "product"
+  nd       bool: non-destructive readout (exposure / observation; the execution of models must not depend on it)
+  params   observation: [{group, model, path: [key, inner...], values:[int...]}]; omode "sequential" | "product";
+           dask: bool (with_dask, run under the synchronous scheduler and computed)
   result:  {"trace": [[step, name, {kwargs}], ...], "nodes": [[step, group, name], ...] | None,
             "det_ok": bool, "error": class name | None}
 
@@ -74,16 +76,16 @@ def _param_key(p):
     return f"pipeline.{p['group']}.{p['model']}.arguments." + ".".join(str(x) for x in path)
 
 
-def _readout_doc(steps):
-    return {"times": _times(steps), "non_destructive": False}
+def _readout_doc(steps, nd=False):
+    return {"times": _times(steps), "non_destructive": bool(nd)}
 
 
 def _mode_doc(p):
-    readout = _readout_doc(p["steps"])
+    readout = _readout_doc(p["steps"], p.get("nd"))
     if p["mode"] == "exposure":
         return {"exposure": {"readout": readout}}
     if p["mode"] == "observation":
-        return {"observation": {"mode": p.get("omode", "sequential"), "with_dask": False, "readout": readout,
+        return {"observation": {"mode": p.get("omode", "sequential"), "with_dask": bool(p.get("dask")), "readout": readout,
                                 "parameters": [{"key": _param_key(q), "values": list(q["values"])}
                                                for q in p["params"]]}}
     if p["mode"] == "calibration":
@@ -93,10 +95,15 @@ def _mode_doc(p):
 
 def _calibration_doc(p):
     # the fitted parameter is a detector characteristic: model arguments stay as configured
+    steps = int(p.get("steps", 1))
+    if steps > 1:   # time-domain target: a (readout time, y, x) cube and 6-value fit ranges
+        shape = {"readout": _readout_doc(steps), "result_fit_range": [0, steps, 0, 2, 0, 2],
+                 "target_data_path": ["target3d.npy"], "target_fit_range": [0, steps, 0, 2, 0, 2]}
+    else:           # default readout (one step)
+        shape = {"result_fit_range": [0, 2, 0, 2], "target_data_path": ["target.npy"], "target_fit_range": [0, 2, 0, 2]}
     return {
-        # default readout (one step)
-        "mode": "pipeline", "result_type": "pixel", "result_fit_range": [0, 2, 0, 2],
-        "target_data_path": ["target.npy"], "target_fit_range": [0, 2, 0, 2],
+        **shape,
+        "mode": "pipeline", "result_type": "pixel",
         "pipeline_seed": 1234, "num_islands": 1, "num_evolutions": 1, "num_best_decisions": 0,
         "fitness_function": {"func": "pyxel.calibration.fitness.sum_of_abs_residuals"},
         "algorithm": {"type": "sade", "generations": 2, "population_size": 8, "variant": 2},
@@ -125,7 +132,7 @@ def _model_function(m):
 def _mode_object(p):
     from harness import pyx
 
-    readout = pyx.make_readout(times=_times(p["steps"]))
+    readout = pyx.make_readout(times=_times(p["steps"]), non_destructive=bool(p.get("nd")))
     if p["mode"] == "exposure":
         from pyxel.exposure import Exposure
         return Exposure(readout=readout)
@@ -133,7 +140,7 @@ def _mode_object(p):
         from pyxel.observation import Observation, ParameterValues
         return Observation(parameters=[ParameterValues(key=_param_key(q), values=list(q["values"]))
                                        for q in p["params"]],
-                           mode=p.get("omode", "sequential"), readout=readout, with_dask=False)
+                           mode=p.get("omode", "sequential"), readout=readout, with_dask=bool(p.get("dask")))
     raise ValueError("calibration is only driven through YAML")
 
 
@@ -206,6 +213,12 @@ def _run_once(p, mode, detector, pipeline):
         if p["mode"] == "exposure":
             result = pyxel.run_mode(mode=mode, detector=detector, pipeline=pipeline, debug=bool(p.get("debug")),
                                     with_inherited_coords=True)
+        elif p["mode"] == "observation" and p.get("dask"):
+            import dask
+            # one task per run; with the synchronous scheduler the calls of a run stay together
+            with dask.config.set(scheduler="synchronous"):
+                result = pyxel.run_mode(mode=mode, detector=detector, pipeline=pipeline, with_inherited_coords=True)
+                result = result.compute()
         elif p["mode"] == "observation":
             result = pyxel.run_mode(mode=mode, detector=detector, pipeline=pipeline, with_inherited_coords=True)
         else:
@@ -229,15 +242,22 @@ def _run_once(p, mode, detector, pipeline):
     return {"trace": trace, "nodes": nodes, "det_ok": bool(det_ok), "error": None}
 
 
-def handle(p):
+def _save_targets(steps):
     import numpy as np
+
+    np.save("target.npy", np.ones((2, 2)))
+    if steps > 1:
+        np.save("target3d.npy", np.ones((int(steps), 2, 2)))
+
+
+def handle(p):
     import verif_probes as vp
 
     if p.get("kind") == "hist":
         return handle_hist(p)
     vp.reset()
     if p["mode"] == "calibration":
-        np.save("target.npy", np.ones((2, 2)))
+        _save_targets(p["steps"])
     try:
         if p["variant"] == "yaml":
             mode, detector, pipeline = _build_yaml(p)
@@ -287,7 +307,6 @@ def _apply_config_op(op, objs, detector):
 
 
 def handle_hist(p):
-    import numpy as np
     import verif_probes as vp
 
     vp.reset()
@@ -317,7 +336,7 @@ def handle_hist(p):
         q = dict(op, det=p.get("det", "ccd"))
         try:
             if op["mode"] == "calibration":
-                np.save("target.npy", np.ones((2, 2)))
+                _save_targets(op["steps"])
                 cal = dict(q, spec=[], variant="yaml")
                 mode = _load_yaml_text(full_yaml(cal)).calibration
             else:
